@@ -169,6 +169,10 @@ impl<F: Float, D: Distance<F>, N: NearestNeighbour>
     Transformer<ArrayView<'_, F, Ix2>, OpticsAnalysis<F>> for OpticsValidParams<F, D, N>
 {
     fn transform(&self, observations: ArrayView<F, Ix2>) -> OpticsAnalysis<F> {
+        // Some nearest neighbour indices (the default k-d tree) need every row to be contiguous
+        // in memory; records in any other layout are copied into standard layout first
+        let observations = observations.as_standard_layout();
+        let observations = observations.view();
         let mut result = OpticsAnalysis { orderings: vec![] };
 
         let mut points = (0..observations.nrows())
